@@ -3,6 +3,7 @@ C24 — helper lemmas for the round-trip and totality theorems.
 -/
 import ZoektModel.C24.Spec
 import ZoektModel.C24.ApiModel
+import ZoektModel.C24.Orig
 namespace ZoektModel.C24
 open ZoektModel
 
